@@ -40,7 +40,7 @@ func scenarios(tier string) []engine.Scenario {
 						groups["known"] = append(groups["known"], knownEncScenario(rt, logN, ch, np))
 					}
 					groups["stat"] = append(groups["stat"], statScenario(rt, logN, ch, np))
-					if logN == 4 || ci == 0 || tier == "thorough" {
+					if logN == 4 || tier == "thorough" {
 						groups["seq"] = append(groups["seq"], seqScenario(rt, logN, ch, np, 2))
 					}
 					if logN == 4 || (logN == 5 && ci == 0) {
